@@ -168,3 +168,39 @@ def h_drv(T: int, dt: int, s0: int, e0: int, s1: int, e1: int, a0: bool, a1: boo
         if b.driver_state.attributes != a.driver_state.attributes:
             return False
     return sim2.stations is sim.stations and sim2.bases is sim.bases and sim2.requests is sim.requests and I.idx_ok(sim2)
+
+
+def h_step_shift(T: int, s0: int, e0: int, a0: bool) -> bool:
+    """
+    real StepSimulation.update (driver updates -> generators -> instructions) with the built-in Dispatcher, one human-driven
+    idle vehicle next to a waiting request: the request is assigned to it in this step iff the step's start time lies inside
+    the shift -- whatever the driver's availability was in the previous step (shift ending / starting exactly now)
+    pre: 0 <= T <= 2000000000 and 0 <= s0 < 86400 and 0 <= e0 < 86400
+    post: _
+    """
+    from nrel.hive.state.simulation_state.update.step_simulation import StepSimulation
+    from nrel.hive.dispatcher.instruction_generator.dispatcher import Dispatcher
+
+    stubs.install_np_shim()
+    stubs.install_h3_shim()
+    stubs.install_time_diff_shim()
+    if boot.SYMBOLIC:
+        trs.datetime = _DatetimeShim
+    av0 = True if a0 else False
+    f0 = _closure(*_times(s0, e0))
+    env, rec = A.env_with_recorder(A.ENV0._replace(schedules=immutables.Map({"sch0": f0})))
+    v0 = replace(A.V0, driver_state=_human("v0", av0, "sch0"), position=A.POS[3], energy=immutables.Map({A.E: 40.0}))
+    sim = A.SIM0._replace(sim_time=mk_time(T), sim_timestep_duration_seconds=60)
+    sim = sso.add_vehicle_safe(sim, v0).unwrap()
+    sim = sso.add_request_safe(sim, A.R0).unwrap()
+    step = StepSimulation.from_tuple((Dispatcher(env.config.dispatcher),))
+
+    sim2, _ = step.update(sim, env)  # ---- real code
+
+    on = _in_shift(s0, e0, T % DAY)
+    st = sim2.vehicles["v0"].vehicle_state
+    heading = isinstance(st, (A.DispatchTrip, A.ServicingTrip))
+    note("stepshift", "was-on" if av0 else "was-off", "on" if on else "off", "dispatched" if heading else "not")
+    if sim2.vehicles["v0"].driver_state.available != on:
+        return False
+    return heading == on
